@@ -204,6 +204,11 @@ def run(A, R: Report, thorough: bool):
                 f'registry key is {pretty(t)[:200]}: anything less shares different computations, anything more (config, context, chain) splits identical computations into separate objects',
                 witness=[pretty(t)[:300]], where=where(fct))
     check_registry_reuse(A, R, 'R13.3b')
+    # the storage key doubles as the sharing key: it must chain every input (else different computations share one object)
+    from .c01 import check_input_map
+    from .keyterm import KeyTerms
+    R.rule('R13.3c', 'the storage key used for sharing covers every Task-valued input of the task', floor=1)
+    check_input_map(A, R, 'R13.3c', KeyTerms(A))
 
     # ---- R13.4
     R.rule('R13.4', 'MultiChain.force calls chain.force(<the same tasks>, **kwargs) on every chain, unconditionally', floor=1)
